@@ -244,14 +244,20 @@ structure S2 where
   b : Nat
   r : Rat
   phi : Rat
+  /-- the inverse flag `cmd.op.dagger` -/
+  dag : Bool := false
 deriving Repr, DecidableEq
 
 def S2.key (c : S2) : Key := (c.a, c.b)
 
+/-- the squeezing a command contributes: `S2gate(r, phi).H = S2gate(-r, phi)` -/
+def S2.effR (c : S2) : Rat := if c.dag then -c.r else c.r
+
 inductive MErr | circuit | index | fuel
 deriving Repr, DecidableEq
 
-/-- `for k, i in enumerate(sorted(indices, reverse=True))`: `removed_cmd = B.pop(i)`, `r += …`,
+/-- `for k, i in enumerate(sorted(indices, reverse=True))`: `removed_cmd = B.pop(i)`, `r += ±p[0]` (sign by the
+inverse flag),
 `if k > 0 and phi_new != phi: raise CircuitError`, `phi = phi_new`.  State `(B, r, phi)`. -/
 def popLoop : List Nat → Nat → List S2 → Rat → Rat → Except MErr (List S2 × Rat × Rat)
   | [], _, B, r, phi => .ok (B, r, phi)
@@ -260,14 +266,14 @@ def popLoop : List Nat → Nat → List S2 → Rat → Rat → Except MErr (List
     | none => .error .index
     | some c =>
       if k > 0 ∧ c.phi ≠ phi then .error .circuit
-      else popLoop is (k + 1) (B.eraseIdx i) (r + c.r) c.phi
+      else popLoop is (k + 1) (B.eraseIdx i) (r + c.effR) c.phi
 
 /-- one pass of the loop body for the group `(mode, indices)`; `indices` is ascending (as produced by
 `list_duplicates`), so `sorted(indices, reverse=True)` is its reverse.  `B.insert(indices[0], …)`. -/
 def mergeOne (B : List S2) (g : Key × List Nat) : Except MErr (List S2) :=
   match popLoop g.2.reverse 0 B 0 0 with
   | .error e => .error e
-  | .ok (B', r, phi) => .ok (B'.insertIdx (g.2.headD 0) ⟨g.1.1, g.1.2, r, phi⟩)
+  | .ok (B', r, phi) => .ok (B'.insertIdx (g.2.headD 0) ⟨g.1.1, g.1.2, r, phi, false⟩)
 
 /-- `duplicates = next(list_duplicates(regrefs), None); while duplicates is not None: …` (the repaired
 loop: positions are recomputed after every merge).  `fuel` bounds the number of iterations. -/
@@ -293,7 +299,7 @@ def mergeS2 (half : Nat) (B : List S2) : Except MErr (List S2) :=
 pair; `missing` is iterated in Python-set order, passed in as `missingOrder`), then the merge. -/
 def xunitaryS2 (half : Nat) (B : List S2) (missingOrder : List Nat) : Except MErr (List S2) :=
   if B.all (fun c => c.a < half ∧ c.b = c.a + half) then
-    let B1 := missingOrder.foldl (fun acc i => (⟨i, i + half, 0, 0⟩ : S2) :: acc) B
+    let B1 := missingOrder.foldl (fun acc i => (⟨i, i + half, 0, 0, false⟩ : S2) :: acc) B
     mergeS2 half B1
   else .error .circuit
 
